@@ -19,7 +19,7 @@ import os, sys, json, time, subprocess, hashlib, re, random, fcntl, shutil, temp
 
 ROOT = os.path.dirname(os.path.dirname(os.path.abspath(__file__)))
 REPO = os.environ.get("VERIF_REPO", "/repo")
-BUILD = os.path.join(ROOT, ".build")
+BUILD = os.environ.get("VERIF_BUILD") or os.path.join(ROOT, ".build")
 ASAN = os.path.join(BUILD, "asan")
 TSAN = os.path.join(BUILD, "tsan")
 LEAN = os.path.join(ROOT, "lean")
